@@ -146,7 +146,7 @@ def _b_float(ex, ctx, args, kw):
     if z3.is_expr(x) and (z3.is_real(x) or z3.is_int(x)):
         return [(ctx, z3.ToReal(x) if z3.is_int(x) else x)]
     if z3.is_expr(x) and x.sort() == M.Val:
-        assumed("float(Val)", "float(x) of a finite real SymPy number is its value as a real (IEEE rounding ignored); raises TypeError otherwise")
+        assumed("float(Val)", "float(x) of a finite real SymPy number is its value as a real (IEEE rounding ignored); of +-oo / NaN it is the float inf / nan; of a complex or symbolic value it raises TypeError")
         res = []
         ok = M.v_real(x)
         ext = z3.Or(M.v_kind(x) == M.PINF, M.v_kind(x) == M.NINF, M.v_kind(x) == M.NAN)  # float(oo) is inf, float(nan) is nan
